@@ -353,21 +353,39 @@ end
 def reaggOK (S : StrFns) (L : List Mapper) (fs : List Fld) : Bool :=
   mkeysNodup (shapeFields S L fs) && reaggFs S L fs fs
 
-/-- the top class: plain mappers in its list, and for every nested class plain own mappers, tracked
-    entry, and the nested level is a re-aggregation level under `own ++ enums` -/
-def regionNested (S : StrFns) (L : List Mapper) : Fld → Bool
+def camelTail (camel : Bool) : List Mapper := if camel then [.camel] else []
+
+mutual
+/-- every nested class below a level governed (on the deserializer's side) by the list `L`: plain own
+    mappers, tracked entry, the nested level is a re-aggregation level under `own ++ enums`, no
+    collision after the `camel_case_convert` round, and recursively so below -/
+def regionFs (S : StrFns) (camel : Bool) (L : List Mapper) : List Fld → Bool
+  | [] => true
+  | f :: fs => regionF S camel L f && regionFs S camel L fs
+termination_by structural fs => fs
+def regionF (S : StrFns) (camel : Bool) (L : List Mapper) : Fld → Bool
   | .scalar _ _ => true
   | .nested n _ _ own fs =>
     trackOK S L n && own.all plainMapper && !fs.isEmpty
       && prefixOK S fs [] (own ++ enumsOf L) && reaggOK S (own ++ enumsOf L) fs
+      && mkeysNodup (shapeFields S (own ++ enumsOf L ++ camelTail camel) fs)
+      && regionFs S camel (own ++ enumsOf L ++ camelTail camel) fs
+termination_by structural f => f
+end
 
-/-- **the region**: a decidable predicate on the class tree and its mapper lists (with
-    `camel_case_convert` off) -/
-def regionOK (S : StrFns) (c : Cls) (ov : Option MDict) : Bool :=
-  wfFields c.fields && (effList c.own ov false).all plainMapper
-    && prefixOK S c.fields [] (effList c.own ov false)
-    && mkeysNodup (shapeFields S (effList c.own ov false) c.fields)
-    && c.fields.all (regionNested S (effList c.own ov false))
+/-- **the region**: a decidable predicate on the class tree, its mapper lists and the
+    `camel_case_convert` flag -/
+def regionOK (S : StrFns) (c : Cls) (ov : Option MDict) (camel : Bool) : Bool :=
+  wfFields c.fields && (effList c.own ov camel).all plainMapper
+    && prefixOK S c.fields [] (effList c.own ov camel)
+    && mkeysNodup (shapeFields S (effList c.own ov camel) c.fields)
+    && regionFs S camel (effList c.own ov camel) c.fields
+
+/-- the serializer's list `Ls` and the deserializer's list `Ld` of one level: equal, or — with
+    `camel_case_convert`, which the deserializer applies again at every level — equal up to repetitions
+    of the final `TO_CAMELCASE` -/
+def CamelRel (camel : Bool) (Ls Ld : List Mapper) : Prop :=
+  if camel then ∃ X j, Ls = X ++ [.camel] ∧ Ld = X ++ List.replicate (j + 1) .camel else Ld = Ls
 
 def entryOKB (m : MDict) (p : String × J) : Bool := isKeyAt m p.1 || (isDnsAt m p.1 && p.2.isNull)
 
